@@ -50,6 +50,20 @@ def U(**kw):
     return kw
 
 
+IP_SRCS = ["rtrlib/lib/ip.c", "rtrlib/lib/ipv4.c", "rtrlib/lib/ipv6.c", "rtrlib/lib/utils.c"]
+
+# loop contract of the while loop of trie_lookup, over the spine model (units/trie_spine.h)
+LOOKUP_LOOP = dict(
+    function="trie_lookup", fingerprint=r"while \(root\)",
+    macro_headers=["spec/spec.h", "units/trie_spine_macros.h"],
+    symbols=["root", "lvl", "prefix", "mask_len"], globals=["g_n", "g_nodes", "g_k", "g_q", "g_ql"],
+    assigns="root, *lvl",
+    invariants="""(*lvl >= __CPROVER_loop_entry(*lvl)) &&
+                  (root == 0 ? (*lvl == g_n) : (*lvl < g_n && root == &g_nodes[*lvl])) &&
+                  ((__CPROVER_loop_entry(*lvl) <= g_k && g_k < *lvl && g_k < g_n) ? !SP_COVERS(g_k) : 1)""",
+    decreases="g_n - *lvl",
+)
+
 UNITS = [
     # ------------------------------------------------------------------ L0 bits (C01, C04)
     U(id="l0_get_bits", props=["C01", "C04"], file="units/l0_bits.c", entry="h_l0_get_bits", defines=["H_ENTRY=h_l0_get_bits"],
@@ -64,6 +78,22 @@ UNITS = [
       enforce=["lrtr_ip_addr_is_zero"], kind="complete", native={}),
     U(id="l0_ip_equal", props=["C01", "C02", "C04"], file="units/l0_ip.c", entry="h_l0_ip_equal", defines=["H_ENTRY=h_l0_ip_equal"],
       enforce=["lrtr_ip_addr_equal"], kind="complete", native={}),
+    # ------------------------------------------------------------------ trie path units (C01, C02, C04)
+    U(id="is_left_child", props=["C01", "C02", "C04"], file="units/trie_lookup.c", entry="h_is_left_child",
+      defines=["H_ENTRY=h_is_left_child", "STUB_IP"], enforce=["is_left_child"],
+      stubs=["lrtr_ip_addr_get_bits", "lrtr_ip_addr_is_zero"], kind="complete", native={}),
+    U(id="trie_lookup_v4", props=["C01", "C04"], file="units/trie_lookup.c", entry="h_trie_lookup", defines=["STUB_IP"],
+      enforce=["trie_lookup"], stubs=["lrtr_ip_addr_get_bits", "lrtr_ip_addr_is_zero", "lrtr_ip_addr_equal"],
+      loops=[LOOKUP_LOOP], kind="unbounded", need_classes=["postcondition", "loop_invariant_step"],
+      native={}, timeout=1200, object_bits=6),
+    U(id="trie_lookup_v6s", props=["C01", "C04"], file="units/trie_lookup.c", entry="h_trie_lookup", defines=["FAM6", "SPINE_N=33", "STUB_IP"],
+      enforce=["trie_lookup"], stubs=["lrtr_ip_addr_get_bits", "lrtr_ip_addr_is_zero", "lrtr_ip_addr_equal"],
+      loops=[LOOKUP_LOOP], kind="bounded: IPv6 paths of at most 33 nodes (full depth 129 in the thorough tier)", need_classes=["postcondition", "loop_invariant_step"],
+      native={}, timeout=2400, object_bits=7),
+    U(id="trie_lookup_v6", props=["C01", "C04"], file="units/trie_lookup.c", entry="h_trie_lookup", defines=["FAM6"], tier="thorough",
+      enforce=["trie_lookup"], link=IP_SRCS,
+      loops=[LOOKUP_LOOP], kind="unbounded", need_classes=["postcondition", "loop_invariant_step"],
+      native={}, timeout=2400, object_bits=7),
     # ------------------------------------------------------------------ C20
     U(id="c20_state_names", props=["C20"], file="units/c20_state_names.c", entry="h_c20_state",
       enforce=["rtr_state_to_str"], kind="complete", bound=70,
